@@ -513,11 +513,21 @@ func (t *Table) InsertColumn(position int, data []string, width int) error {
 		return fmt.Errorf("数据行数(%d)超过表格行数(%d)", len(data), len(t.Rows))
 	}
 
-	// 更新表格网格
+	// 合并单元格后各行的单元格数可能不同：修改前先检查每一行，保证失败时表格保持不变
+	for i := range t.Rows {
+		if position > len(t.Rows[i].Cells) {
+			return fmt.Errorf("插入位置无效：%d，第%d行只有%d个单元格", position, i, len(t.Rows[i].Cells))
+		}
+	}
+
+	// 更新表格网格（从文件读取的表格可能没有网格定义）
+	if t.Grid == nil {
+		t.Grid = &TableGrid{}
+	}
 	newGridCol := TableGridCol{
 		W: fmt.Sprintf("%d", width),
 	}
-	if position == len(t.Grid.Cols) {
+	if position >= len(t.Grid.Cols) {
 		t.Grid.Cols = append(t.Grid.Cols, newGridCol)
 	} else {
 		t.Grid.Cols = append(t.Grid.Cols[:position+1], t.Grid.Cols[position:]...)
@@ -591,8 +601,17 @@ func (t *Table) DeleteColumn(colIndex int) error {
 		return fmt.Errorf("表格至少需要保留一列")
 	}
 
-	// 删除网格列
-	t.Grid.Cols = append(t.Grid.Cols[:colIndex], t.Grid.Cols[colIndex+1:]...)
+	// 合并单元格后各行的单元格数可能不同：修改前先检查每一行，保证失败时表格保持不变
+	for i := range t.Rows {
+		if colIndex >= len(t.Rows[i].Cells) {
+			return fmt.Errorf("列索引无效：%d，第%d行只有%d个单元格", colIndex, i, len(t.Rows[i].Cells))
+		}
+	}
+
+	// 删除网格列（从文件读取的表格可能没有网格定义，或网格列数少于单元格数）
+	if t.Grid != nil && colIndex < len(t.Grid.Cols) {
+		t.Grid.Cols = append(t.Grid.Cols[:colIndex], t.Grid.Cols[colIndex+1:]...)
+	}
 
 	// 删除每行的对应单元格
 	for i := range t.Rows {
@@ -619,8 +638,17 @@ func (t *Table) DeleteColumns(startIndex, endIndex int) error {
 		return fmt.Errorf("删除后表格至少需要保留一列")
 	}
 
-	// 删除网格列范围
-	t.Grid.Cols = append(t.Grid.Cols[:startIndex], t.Grid.Cols[endIndex+1:]...)
+	// 合并单元格后各行的单元格数可能不同：修改前先检查每一行，保证失败时表格保持不变
+	for i := range t.Rows {
+		if endIndex >= len(t.Rows[i].Cells) {
+			return fmt.Errorf("列索引范围无效：[%d, %d]，第%d行只有%d个单元格", startIndex, endIndex, i, len(t.Rows[i].Cells))
+		}
+	}
+
+	// 删除网格列范围（从文件读取的表格可能没有网格定义，或网格列数少于单元格数）
+	if t.Grid != nil && endIndex < len(t.Grid.Cols) {
+		t.Grid.Cols = append(t.Grid.Cols[:startIndex], t.Grid.Cols[endIndex+1:]...)
+	}
 
 	// 删除每行的对应单元格范围
 	for i := range t.Rows {
